@@ -606,7 +606,9 @@ func (x *Engine) havocLoc(st, pre *State, m *Clause, env map[string]Val, pkg *ss
 			key := x.elemKey(el)
 			row := x.fresh("row")
 			x.decl(row, "(Array Int "+x.sortOf(el)+")")
-			x.set(st, key, fmt.Sprintf("(store %s (s_base %s) %s)", x.get(st, key), v.T, row))
+			// a nil slice (base 0) has no elements: nothing is written
+			cur := x.get(st, key)
+			x.set(st, key, fmt.Sprintf("(store %s (s_base %s) (ite (= (s_base %s) 0) (select %s 0) %s))", cur, v.T, v.T, cur, row))
 			return
 		case "mapof":
 			v := x.safeEval(ev, &Clause{Expr: n.Args[1], Text: m.Text, File: m.File, Line: m.Line})
